@@ -365,7 +365,8 @@ theorem equal_eq (R : Rules Path) (s o : SetImpl Path) : PathSet_Equal R s o = .
   by_cases h : s.length = o.length
   · simp [PathSet_Equal, PathSet.equal, Int.ofNat_eq_natCast, h, equal_loop]
   · have : ¬ ((s.length : Int) = (o.length : Int)) := by omega
-    simp [PathSet_Equal, PathSet.equal, Int.ofNat_eq_natCast, h, this]
+    have this' : ¬ ((o.length : Int) = (s.length : Int)) := by omega
+    simp [PathSet_Equal, PathSet.equal, Int.ofNat_eq_natCast, h, this, this']
 
 /-- `PathSet.Empty` -/
 theorem empty_eq (s : SetImpl Path) : PathSet_Empty s = .ok (PathSet.isEmpty s) := by
@@ -505,24 +506,24 @@ theorem walk_fuel_eq (X : SetOracle) (cb : Walk.WalkCb) : ∀ (n : Nat) (log : L
     have ih : walk_fuel X cb n = Walk.walkFuel X cb n := by
       funext l p v; exact walk_fuel_eq X cb n l p v
     obtain ⟨h1, h2, h3⟩ := children_steps X val.unmark
+    have hty : (Value.unmark val).ty = val.ty := rfl
+    rw [hty] at h1 h2 h3
+    -- the three ways the member loops of the source relate to the model's `walkKids` over `children`
+    have e1 : isObjectType val.ty = true → ∀ l, walk_loop1 path (Walk.walkFuel X cb n) l (elements X val.unmark) =
+        Walk.walkKids (Walk.walkFuel X cb n) l path (Walk.children X val.unmark) :=
+      fun ho l => loop1_eq path _ _ l (h1 ho)
+    have e2 : isObjectType val.ty = false → ∀ l, walk_loop2 path (Walk.walkFuel X cb n) l (elements X val.unmark) =
+        Walk.walkKids (Walk.walkFuel X cb n) l path (Walk.children X val.unmark) :=
+      fun ho l => loop2_eq path _ _ l (h2 ho)
+    have e3 : isObjectType val.ty = false → canIterateElements val.unmark = false → ∀ l,
+        Walk.walkKids (Walk.walkFuel X cb n) l path (Walk.children X val.unmark) = (l, .ok ()) :=
+      fun ho hc l => by rw [h3 ho hc]; rfl
     simp only [walk_fuel, Walk.walkFuel, ih]
     cases cb log path val with
     | ok deeper =>
       simp only [callCb]
-      cases deeper <;> simp only [Bool.not_false, Bool.not_true, if_true, Bool.false_eq_true, if_false]
-      split
-      · rfl
-      · have hty : (Value.unmark val).ty = val.ty := rfl
-        by_cases ho : isObjectType val.ty = true
-        · simp only [ho, if_true, elements]
-          exact loop1_eq path _ _ _ (h1 (by rw [hty]; exact ho))
-        · have ho' : isObjectType val.ty = false := by simpa using ho
-          simp only [ho', Bool.false_eq_true, if_false, elements]
-          by_cases hc : canIterateElements val.unmark = true
-          · simp only [hc, if_true]
-            exact loop2_eq path _ _ _ (h2 (by rw [hty]; exact ho'))
-          · have hc' : canIterateElements val.unmark = false := by simpa using hc
-            simp only [hc', Bool.false_eq_true, if_false, h3 (by rw [hty]; exact ho') hc', Walk.walkKids]
+      cases deeper <;> cases hn1 : val.isNull <;> cases hn2 : val.isKnown <;> cases ho : isObjectType val.ty <;>
+        cases hc : canIterateElements val.unmark <;> simp_all
     | err c => rfl
     | panic w => rfl
     | unmodelled => rfl
